@@ -67,11 +67,20 @@ class VerdictQueue(object):
 
     def enqueue(self, envelope):
         self.envelopes.append(envelope)
-        m = re.search(br'X-Queue-Verdict: (\d\d\d)', b''.join(envelope.flatten()))
+        m = re.search(br'X-Queue-Verdict: (\d\d\d)( cmd| multi| relay)?', b''.join(envelope.flatten()))
         if m:
-            e = QueueError('scripted')
             code = m.group(1).decode()
-            e.reply = Reply(code, '%s.3.0 scripted queue verdict' % code[0])
+            how = (m.group(2) or b'').strip()
+            text = '%s.3.0 scripted queue verdict' % code[0]
+            if how == b'multi':
+                text += '\r\nsecond line of the verdict'          # as many real servers answer
+            reply = Reply(code, text, command=(b'RCPT' if how in (b'cmd', b'relay') else None))
+            if how == b'relay':
+                # what a ProxyQueue behind the edge hands back: the relay error of the next hop
+                from slimta.relay.smtp import SmtpRelayError
+                return [(envelope, SmtpRelayError.factory(reply))]
+            e = QueueError('scripted')
+            e.reply = reply
             return [(envelope, e)]
         return [(envelope, 'id%d' % len(self.envelopes))]
 
@@ -413,7 +422,8 @@ def envelope_spec(draw, utf8, eightbit_ok):
     block, eol, body, fields = draw(c20.structured_case())
     block = re.sub(br'\r?\n', b'\r\n', block) + b'\r\n'
     if not draw(st.integers(0, 3)):
-        block += b'X-Queue-Verdict: ' + draw(st.sampled_from([b'451', b'554', b'452'])) + b'\r\n'
+        block += b'X-Queue-Verdict: ' + draw(st.sampled_from([b'451', b'554', b'452'])) + \
+            draw(st.sampled_from([b'', b'', b' cmd', b' multi', b' relay'])) + b'\r\n'
     body = draw(st.one_of(st.just(body), st.sampled_from([b'', b'.\r\n', b'..\r\n.\r\n', b'no newline', b'a\nb\n', b'line\r\n' * 50])))
     if not eightbit_ok and draw(st.integers(0, 4)):
         body = bytes(c for c in body if c < 128)
